@@ -29,7 +29,7 @@ manager accepts (returns a response):
   variants  URLs that differ only in scheme/host letter case or an explicit default port
             reuse the connection of the same pool (no new dial, no second pool) and emit
             byte-identical requests.
-URLs the manager rejects (LocationParseError / LocationValueError) are counted; a URL the
+URLs the manager refuses (a ValueError: LocationParseError / LocationValueError / UnicodeError) are counted; a URL the
 manager accepts although the reader finds no host/port reading for it is reported.
 """
 from __future__ import annotations
@@ -333,6 +333,20 @@ def _client_label(client, scheme):
     return "proxy-forwarding" if scheme == "http" else "proxy-tunnel"
 
 
+# Signatures stay small: a clause about the host carries the host kind, a clause about the port
+# the port shape, a clause about path/query/fragment only the client.
+def _h(sig, **kw):
+    return dict({"client": sig["client"], "hostkind": sig.get("hostkind")}, **kw)
+
+
+def _p(sig, **kw):
+    return dict({"client": sig["client"], "port_shape": sig.get("port_shape")}, **kw)
+
+
+def _c(sig, **kw):
+    return dict({"client": sig["client"]}, **kw)
+
+
 def _check_named(acc, case, sig, where, text, exp, need_port):
     """`text` is an authority (Host header value, CONNECT target, authority of an
     absolute-form target): no userinfo, same host, same port"""
@@ -341,7 +355,7 @@ def _check_named(acc, case, sig, where, text, exp, need_port):
         ui, htext, port, pt = read_authority(text)
         name, had_zone, had_dot, bracketed = name_in(htext)
     except Unreadable as e:
-        acc.violation(where + "-unparseable", dict(sig, reason=str(e)), case, observed=text,
+        acc.violation(where + "-unparseable", _h(sig, reason=str(e)), case, observed=text,
                       expected="host[:port] naming %s port %d" % (exp["name"], exp["port"]))
         return
     if ui is not None:
@@ -350,27 +364,27 @@ def _check_named(acc, case, sig, where, text, exp, need_port):
         acc.violation(where + "-carries-userinfo", {"client": sig["client"]}, case, observed=text,
                       expected="no userinfo")
     if name != exp["name"] or bracketed != (exp["kind"] in ("v6", "v6zone")):
-        acc.violation(where + "-names-other-host", sig, case, observed=text, expected=exp["name"])
+        acc.violation(where + "-names-other-host", _h(sig), case, observed=text, expected=exp["name"])
     # statement silent on decorations of the *name* in these places: either, counted
     if exp["zone"] is not None:
         c["either_%s_zone_%s" % (where, "kept" if had_zone else "dropped")] += 1
     elif had_zone:
-        acc.violation(where + "-names-other-host", dict(sig, what="zone-from-nowhere"), case, observed=text,
+        acc.violation(where + "-names-other-host", _h(sig, what="zone-from-nowhere"), case, observed=text,
                       expected=exp["name"])
     if exp["dotted"]:
         c["either_%s_trailing_dot_%s" % (where, "kept" if had_dot else "dropped")] += 1
     elif had_dot:
-        acc.violation(where + "-names-other-host", dict(sig, what="dot-from-nowhere"), case, observed=text,
+        acc.violation(where + "-names-other-host", _h(sig, what="dot-from-nowhere"), case, observed=text,
                       expected=exp["name"])
     if port is None:
         if need_port or exp["port"] != DEFAULT_PORT[exp["scheme"]]:
-            acc.violation(where + "-port", sig, case, observed=text,
+            acc.violation(where + "-port", _p(sig), case, observed=text,
                           expected="port %d (%s)" % (exp["port"], "explicit" if need_port else "default elided or explicit"))
         else:
             c["either_%s_default_port_elided" % where] += 1
     else:
         if port != exp["port"]:
-            acc.violation(where + "-port", sig, case, observed=text, expected="port %d" % exp["port"])
+            acc.violation(where + "-port", _p(sig), case, observed=text, expected="port %d" % exp["port"])
         elif exp["port"] == DEFAULT_PORT[exp["scheme"]]:
             c["either_%s_default_port_explicit" % where] += 1
 
@@ -391,50 +405,50 @@ def _check_path_query(acc, case, sig, text, exp, absolute):
         c["either_absolute_form_empty_path_kept"] += 1
     else:
         if not wpath.startswith("/"):
-            acc.violation("target-path", dict(sig, what="not-rooted"), case, observed=text, expected=epath or "/")
+            acc.violation("target-path", _c(sig, what="not-rooted"), case, observed=text, expected=epath or "/")
         ok, stray = octets_equal(wpath, epath or "/")
         if stray:
             c["either_stray_percent_component"] += 1
         if not ok:
-            acc.violation("target-path", dict(sig, what="octets", dots=exp["dots"]), case, observed=wpath,
+            acc.violation("target-path", _c(sig, what="octets", dots=exp["dots"]), case, observed=wpath,
                           expected=epath or "/")
         segs = wpath.split("/")
         if "." in segs or ".." in segs:
-            acc.violation("target-path", dict(sig, what="dot-segment-left"), case, observed=wpath, expected=epath or "/")
+            acc.violation("target-path", _c(sig, what="dot-segment-left"), case, observed=wpath, expected=epath or "/")
     if (wquery is None) != (exp["query"] is None):
-        acc.violation("target-query", dict(sig, what="presence"), case, observed=wquery, expected=exp["query"])
+        acc.violation("target-query", _c(sig, what="presence"), case, observed=wquery, expected=exp["query"])
     elif wquery is not None:
         ok, stray = octets_equal(wquery, exp["query"])
         if stray:
             c["either_stray_percent_component"] += 1
         if not ok:
-            acc.violation("target-query", dict(sig, what="octets"), case, observed=wquery, expected=exp["query"])
+            acc.violation("target-query", _c(sig, what="octets"), case, observed=wquery, expected=exp["query"])
 
 
 def _check_get(acc, case, sig, ent, exp, label):
     """the GET request itself: Host header + request target"""
     req = ent["req"]
     if req.problems or req.method != "GET":
-        acc.violation("request-malformed", sig, case, observed={"method": req.method, "problems": req.problems},
+        acc.violation("request-malformed", _c(sig), case, observed={"method": req.method, "problems": req.problems},
                       expected="a well-formed GET")
         return
     hosts = req.get_all("host")
     if len(hosts) != 1:
-        acc.violation("host-header-count", sig, case, observed=hosts, expected="exactly one Host header")
+        acc.violation("host-header-count", _c(sig), case, observed=hosts, expected="exactly one Host header")
     else:
         _check_named(acc, case, sig, "host-header", hosts[0], exp, need_port=False)
     t = req.target
     if not t.isascii() or not t.isprintable() or " " in t:
-        acc.violation("target-path", dict(sig, what="raw-octet"), case, observed=t, expected="escaped ASCII")
+        acc.violation("target-path", _c(sig, what="raw-octet"), case, observed=t, expected="escaped ASCII")
         return
     if label == "proxy-forwarding":
         # absolute-form: scheme "://" authority path-abempty [ "?" query ]
         m = _SCHEME_RE.match(t)
         if not m:
-            acc.violation("target-form", sig, case, observed=t, expected="absolute-form to a forwarding proxy")
+            acc.violation("target-form", _c(sig), case, observed=t, expected="absolute-form to a forwarding proxy")
             return
         if m.group(1).lower() != exp["scheme"]:
-            acc.violation("target-scheme", sig, case, observed=t, expected=exp["scheme"])
+            acc.violation("target-scheme", _c(sig), case, observed=t, expected=exp["scheme"])
         elif m.group(1) != exp["scheme"]:
             acc.counters["either_absolute_form_scheme_case_kept"] += 1
         rest = t[m.end():]
@@ -445,7 +459,7 @@ def _check_get(acc, case, sig, ent, exp, label):
         _check_path_query(acc, case, sig, rest[end:], exp, absolute=True)
     else:
         if not t.startswith("/"):
-            acc.violation("target-form", sig, case, observed=t, expected="origin-form")
+            acc.violation("target-form", _c(sig), case, observed=t, expected="origin-form")
             if _SCHEME_RE.match(t):
                 return
         _check_path_query(acc, case, sig, t, exp, absolute=False)
@@ -466,41 +480,42 @@ def check_first(acc, case, exp, client, obs):
             clause = "dial-host"
         else:
             clause = "dial"
-        acc.violation(clause, sig, case, observed=conns, expected=want)
+        acc.violation(clause, {"dial-port": _p, "dial-host": _h}.get(clause, lambda x: dict(x))(sig), case,
+                      observed=conns, expected=want)
     # ---- TLS layers
     names = [t["server_hostname"] for t in tls]
     if names != ([exp["name"]] if https else []):
-        acc.violation("tls-server-name", sig, case, observed=names,
+        acc.violation("tls-server-name", _h(sig), case, observed=names,
                       expected=[exp["name"]] if https else "no TLS layer for http")
     if https and tls and tls[0].get("layer") != 1:
-        acc.violation("tls-server-name", dict(sig, what="layer"), case, observed=tls[0].get("layer"), expected=1)
+        acc.violation("tls-server-name", _h(sig, what="layer"), case, observed=tls[0].get("layer"), expected=1)
     # ---- requests
     gets = reqs
     if label == "proxy-tunnel":
         if not reqs or reqs[0]["req"].method != "CONNECT" or reqs[0]["layer"] != 0:
-            acc.violation("connect-missing", sig, case, observed=[r["req"].method for r in reqs],
+            acc.violation("connect-missing", _c(sig), case, observed=[r["req"].method for r in reqs],
                           expected="CONNECT first, in clear, to the proxy")
         else:
             creq = reqs[0]["req"]
             if creq.problems:
-                acc.violation("request-malformed", dict(sig, what="CONNECT"), case, observed=creq.problems, expected="well-formed")
+                acc.violation("request-malformed", _c(sig, what="CONNECT"), case, observed=creq.problems, expected="well-formed")
             # the proxy opens the TCP connection: the CONNECT authority is the dial address
             _check_named(acc, case, sig, "connect-target", creq.target, exp, need_port=True)
             ch = creq.get_all("host")
             if len(ch) == 1:
                 _check_named(acc, case, sig, "connect-host-header", ch[0], exp, need_port=False)
             elif ch:
-                acc.violation("host-header-count", dict(sig, what="CONNECT"), case, observed=ch, expected="at most one")
+                acc.violation("host-header-count", _c(sig, what="CONNECT"), case, observed=ch, expected="at most one")
             gets = reqs[1:]
     if len(gets) != 1:
-        acc.violation("request-count", sig, case, observed=[(r["req"].method, r["req"].target) for r in reqs],
+        acc.violation("request-count", _c(sig), case, observed=[(r["req"].method, r["req"].target) for r in reqs],
                       expected="one GET")
         return None
     g = gets[0]
     if g["layer"] != (1 if https else 0):
-        acc.violation("request-layer", sig, case, observed=g["layer"], expected=1 if https else 0)
+        acc.violation("request-layer", _c(sig), case, observed=g["layer"], expected=1 if https else 0)
     if label == "proxy-tunnel" and g["tunnel"] is None:
-        acc.violation("request-layer", dict(sig, what="outside-tunnel"), case, observed=None, expected="inside the tunnel")
+        acc.violation("request-layer", _c(sig, what="outside-tunnel"), case, observed=None, expected="inside the tunnel")
     _check_get(acc, case, sig, g, exp, label)
     return g
 
@@ -508,7 +523,7 @@ def check_first(acc, case, exp, client, obs):
 def check_variant(acc, case, exp, client, obs, base, vkind, npools):
     conns, reqs, tls = obs
     label = _client_label(client, exp["scheme"])
-    sig = {"client": label, "variant": vkind, "hostkind": exp["kind"]}
+    sig = {"client": label, "case": "case" in vkind, "default_port": "default-port" in vkind}
     if conns or tls or npools != 1:
         acc.violation("variant-other-pool", sig, case, observed={"dials": conns, "pools": npools},
                       expected="the pool (and idle connection) of the base URL")
@@ -558,8 +573,16 @@ def _swap_host(host):
 
 def variants(parts):
     """URLs that differ from build_url(*parts) only in scheme/host letter case and/or an
-    explicit default port -> [(kind, url)]"""
+    explicit default port -> [(kind, url)]. None when the reader does not find host and port
+    where the grammar put them (a backslash or ';p' re-split the text): rewriting the
+    components would then change something else than the host's case or the port."""
     scheme, ui, host, port, path, query, frag = parts
+    try:
+        r = read_url(build_url(*parts))
+    except Unreadable:
+        return None
+    if r["host"] != host or r["port_text"] != port or r["userinfo"] != ui:
+        return None
     d = str(DEFAULT_PORT[scheme])
     ports = [(None, port)]
     if port is None:
@@ -579,7 +602,9 @@ def _request(pm, url):
     """-> None if accepted, else the rejection class name"""
     try:
         r = pm.request("GET", url, retries=False)
-    except (LocationParseError, LocationValueError) as e:
+    except ValueError as e:
+        # the URL is refused as a bad value: LocationParseError, LocationValueError, or the
+        # UnicodeError http.client raises for a label IDNA cannot encode. Outside the statement.
         return type(e).__name__
     except SimStall as e:
         raise HarnessError("simnet stalled on %r: %s" % (url, e)) from None
@@ -612,7 +637,7 @@ def run_one(parts, client, acc, trace=None):
             acc.outcomes["crash/%s/%s" % (label, type(e).__name__)] += 1
             acc.violation("request-raises", {"client": label, "exc": type(e).__name__,
                                              "readable": unreadable is None}, case,
-                          observed=e, expected="a response, or LocationParseError / LocationValueError")
+                          observed=e, expected="a response, or a ValueError (LocationParseError / LocationValueError / UnicodeError) refusing the URL")
             return
         obs = marks.take()
         if trace is not None:
@@ -651,7 +676,11 @@ def run_one(parts, client, acc, trace=None):
                         "host_header": base["req"].get_all("host"), "tls": [t["server_hostname"] for t in obs[2]]})
         if base is None:
             return
-        for vkind, vurl in variants(parts):
+        vs = variants(parts)
+        if vs is None:
+            c["variants_skipped_text_resplit"] += 1
+            vs = []
+        for vkind, vurl in vs:
             vcase = dict(case, variant=vurl)
             c["variant_requests"] += 1
             c["variant:" + vkind] += 1
@@ -814,7 +843,7 @@ def run(ctx):
             "absolute-form target with an empty path may keep it empty (RFC 9112 §3.2.2) — counted",
             "path/query are compared as percent-decoded octets; a component with a stray '%' may be sent encoded "
             "wholesale (urllib3's documented all-or-nothing contract) — counted",
-            "URLs a manager refuses with LocationParseError / LocationValueError are outside the statement (counted)",
+            "URLs a manager refuses with a ValueError (LocationParseError / LocationValueError / http.client's UnicodeError) are outside the statement (counted); any other exception is reported",
         ],
         vacuity=[
             (exhaustive, "enumeration incomplete: %d+%d products of %d+%d" % (c["products:grid"], c["products:star"], want_products, want_star)),
